@@ -117,7 +117,8 @@ def validate(c, trace, name):
     return json.loads(json.loads(m.group(3))), int(m.group(2))
 
 
-def pipeline(c, nflow, npar, nscen, seed_off=0, par_exec=0, race=False, progs=None, mode="base", cff_extra=(), remap=None, info=None):
+def pipeline(c, nflow, npar, nscen, seed_off=0, par_exec=0, race=False, progs=None, mode="base", cff_extra=(), remap=None, info=None,
+             model_traces=0):
     """The whole path for one corpus.  Violations are filed in c; returns number of executions.
     remap: property id -> property id under which a monitor violation is filed (C20 files the
     disagreement of a mode with the reference monitor under its own id); info: dict that receives
@@ -175,6 +176,15 @@ def pipeline(c, nflow, npar, nscen, seed_off=0, par_exec=0, race=False, progs=No
     if len(c.cov["samples"]) < 3:
         p = next(iter(byname.values()))
         c.cov["samples"].append(dict(program={k: v for k, v in p.items() if k != "style"}, scenario=jobs[0]["sc"]))
+    if model_traces and mode == "base":
+        # the same executions against the transcription of the templates itself
+        for module, d, lim in (("FlowTrace", "flow", model_traces), ("ParallelTrace", "parallel", model_traces // 3)):
+            acc, rej = validate_model_trace(c, trace, "t%d" % seed_off, module, d, lim)
+            c.cov["model_traces_accepted"] = c.cov.get("model_traces_accepted", 0) + acc
+            c.cov["traces_validated_against_impl"] += acc
+            for x in rej:
+                c.inconclusive.append("MODEL-MISMATCH: %s does not accept execution %s of program %s (the generated code no "
+                                      "longer behaves like the transcribed templates)" % (module[:-5] + ".tla", x["exec"], x["prog"]["name"]))
     jobby = {j["exec"]: j for j in jobs}
     for ex, stamp, prop, what in viols:
         job = jobby.get(ex // 100)
@@ -343,3 +353,74 @@ def typecheck_pkg(c, root, pkg):
     """Type-checks one package of the rendered module without the cff tag."""
     r = subprocess.run(["go", "build", "./%s/" % pkg], cwd=root, env=GOENV, capture_output=True, text=True, timeout=900)
     return r.returncode == 0, (r.stdout + r.stderr)[-3000:]
+
+
+# ------------------------------------------------------------------ recorded executions against Flow.tla itself
+KEEP = ("ev", "u", "idx", "k", "toks", "out", "kind", "errs", "leaf", "same")
+
+
+def ninsts(prog):
+    return sum(max(u["len"], 0) if u["kind"] in ("selem", "melem") else 1 for u in prog["units"])
+
+
+def split_executions(trace, want_dir="flow", limit=None, seed=0, max_insts=6):
+    """Splits the directive trace into executions and each execution's events by goroutine:
+    list 1 = the caller, then one list per other goroutine, last the cancellation stamps."""
+    execs, cur = [], None
+    for l in open(trace):
+        e = json.loads(l)
+        if e["ev"] == "reset":
+            cur = dict(exec=e["exec"], prog=e["prog"], conc=e["sc"]["effconc"], coe=e["sc"]["effcoe"], caller=e["g"], evs=[], bad=False)
+            execs.append(cur)
+            continue
+        if cur is None:
+            continue
+        if e["ev"] in ("hang", "leak", "slow", "propagated"):
+            cur["bad"] = True
+        cur["evs"].append(e)
+    out = []
+    for x in execs:
+        if x["bad"] or x["prog"]["dir"] != want_dir or x["prog"].get("big") or ninsts(x["prog"]) > max_insts:
+            continue        # the interleaving search grows quickly with the number of independent jobs
+        lists, order = {}, []
+        for e in x["evs"]:
+            if e["ev"] in ("over",):
+                continue
+            g = "env" if e["ev"] in ("cancel_begin", "cancel") else e["g"]
+            if g not in lists:
+                lists[g] = []
+                order.append(g)
+            lists[g].append({k: e[k] for k in KEEP})
+        gs = [x["caller"]] + [g for g in order if g not in (x["caller"], "env")] + (["env"] if "env" in lists else [])
+        out.append(dict(exec=x["exec"], prog=x["prog"], conc=x["conc"], coe=x["coe"], lists=[lists.get(g, []) for g in gs]))
+    if limit and len(out) > limit:
+        out = random.Random(seed).sample(out, limit)
+    return out
+
+
+def validate_model_trace(c, trace, name, module="FlowTrace", want_dir="flow", limit=400, chunk=450):
+    """TLC searches, per execution, an interleaving of the per-goroutine event lists that is a behaviour of
+    Flow.tla / Parallel.tla.  Executions are concatenated (TReset) in chunks small enough for TLC's limit on the
+    length of a behaviour.  Returns (accepted, rejected executions)."""
+    allx = split_executions(trace, want_dir, limit, c.seed)
+    accepted, rejected = 0, []
+    for ci in range(0, len(allx), chunk):
+        xs = allx[ci:ci + chunk]
+        while xs and len(rejected) < 3:
+            path = os.path.join(c.scratch, "%s-%s-%d.ndjson" % (module, name, ci))
+            with open(path, "w") as f:
+                for x in xs:
+                    f.write(json.dumps(x) + "\n")
+            cfg = ('CONSTANTS TraceFile = "%s"  ProgFile = "%s"  Concs = {1}  CANCEL = TRUE%s\nSPECIFICATION TSpec\nVIEW TView\nCHECK_DEADLOCK FALSE\n'
+                   % (path, path, '  OUTS = {"ok", "err", "panic"}' if module == "ParallelTrace" else ""))
+            r = c.tlc(module, cfg, "%s-%s-%d" % (module.lower(), name, ci), workers=16, timeout=600)
+            acc = sorted(set(int(a) for a in re.findall(r'<<"TRACE-ACCEPTED", (\d+), \d+>>', r["output"])))
+            n = 0
+            while n < len(acc) and acc[n] == n + 1:
+                n += 1
+            accepted += n
+            if n == len(xs):
+                break
+            rejected.append(xs[n])
+            xs = xs[n + 1:]
+    return accepted, rejected
